@@ -991,7 +991,8 @@ WORK = [mask_case, mask_case, mask_case, mask_case, multiplet_case, svd_trunc_ca
 
 def run_case(ctx, idx):
     sym = G.ALL_SYMS[idx % len(G.ALL_SYMS)]
-    WORK[(idx // len(G.ALL_SYMS)) % len(WORK)](ctx, idx, sym)
+    with np.errstate(invalid="ignore"):     # the library multiplies tol = +-inf by max = 0 (RuntimeWarning only, the comparison is then False)
+        WORK[(idx // len(G.ALL_SYMS)) % len(WORK)](ctx, idx, sym)
 
 
 # ------------------------------------------------------------------ canaries
